@@ -29,8 +29,8 @@ func init() {
 }
 
 // fallback literal list (used when the check does not pass the regenerated one with -arg lits=…)
-var ctxDefaultLits = [][2]string{{"eq", ".git"}, {"eq", "Dockerfile"}, {"eq", "package.json"}, {"eq", "go.mod"}, {"eq", "Makefile"},
-	{"eq", "makefile"}, {"suffix", ".tf"}, {"suffix", ".csproj"}, {"contains", "k8s"}, {"contains", "playbook"}, {"suffix", ".yaml"}, {"suffix", ".yml"}}
+// used when the translator cannot read the literals off the current source (snapshot of the rule set at the time of writing)
+var ctxDefaultLits = [][2]string{{"eq", ".git"}, {"eq", "Dockerfile"}, {"eq", "docker-compose.yml"}, {"eq", "docker-compose.yaml"}, {"eq", "package.json"}, {"eq", "node_modules"}, {"eq", "yarn.lock"}, {"eq", "pnpm-lock.yaml"}, {"eq", "webpack.config.js"}, {"eq", "webpack.config.ts"}, {"eq", "vite.config.js"}, {"eq", "vite.config.ts"}, {"eq", "requirements.txt"}, {"eq", "setup.py"}, {"eq", "pyproject.toml"}, {"eq", "Pipfile"}, {"eq", "go.mod"}, {"eq", "go.sum"}, {"eq", "Cargo.toml"}, {"eq", "Cargo.lock"}, {"eq", "pom.xml"}, {"eq", "build.gradle"}, {"eq", "build.gradle.kts"}, {"suffix", ".csproj"}, {"suffix", ".vbproj"}, {"suffix", ".fsproj"}, {"eq", "global.json"}, {"eq", "nuget.config"}, {"eq", "Gemfile"}, {"eq", "Rakefile"}, {"eq", "composer.json"}, {"eq", "composer.lock"}, {"eq", "CMakeLists.txt"}, {"eq", "Makefile"}, {"eq", "makefile"}, {"contains", "k8s"}, {"contains", "kubernetes"}, {"suffix", ".yaml"}, {"suffix", ".yml"}, {"eq", "kustomization.yaml"}, {"eq", "kustomization.yml"}, {"suffix", ".tf"}, {"suffix", ".tfvars"}, {"eq", "ansible.cfg"}, {"eq", "hosts"}, {"eq", "inventory"}, {"contains", "playbook"}, {"suffix", ".yml"}, {"suffix", ".yaml"}}
 
 func ctxLiterals(args map[string]string) [][2]string {
 	a := args["lits"]
@@ -143,7 +143,22 @@ func genCtxDir(r *Rng, lits [][2]string, tier string) *ctxDir {
 		}
 	}
 	mode := r.Intn(10)
-	if mode >= 2 { // marker files
+	if mode == 9 && len(eqs)+len(sufs)+len(cons) > 0 {
+		// exactly ONE marker (each literal of the rule set gets its turn) among files that mean nothing: whatever a rule does
+		// with a weak hint, the directory is either recognised as something or reported as generic - never as nothing
+		k := r.Intn(len(eqs) + len(sufs) + len(cons))
+		switch {
+		case k < len(eqs):
+			add(eqs[k])
+		case k < len(eqs)+len(sufs):
+			add(Pick(r, []string{"main", "x", "deploy"}) + sufs[k-len(eqs)])
+		default:
+			add("my-" + cons[k-len(eqs)-len(sufs)] + ".txt")
+		}
+		for i, n := 0, r.Range(0, 3); i < n; i++ {
+			add(Pick(r, []string{"README.md", "notes.txt", "src", "data.csv", "LICENSE", "a.out"}))
+		}
+	} else if mode >= 2 { // marker files
 		p := Pick(r, []int{4, 8, 12, 25, 50})
 		for _, e := range eqs {
 			if r.Intn(100) < p {
